@@ -230,6 +230,7 @@ func (l *Log) Append(b []byte) error {
 		}
 		connect(l.last, s)
 		l.last = s
+		verifPoint("log.rollover", l.dir, s.prevIndex)
 	}
 	l.last.append(b)
 	return nil
